@@ -298,6 +298,8 @@ class PotentialElectrode(BaseElectrode):
 
         self.metadata = metadata
         current_electrodes.metadata = metadata
+        self._current_electrodes = current_electrodes
+        current_electrodes._potential_electrodes = self
 
         if isinstance(current_electrodes.ab_cell_id, ReferencedData) and isinstance(
             self.ab_cell_id, ReferencedData
@@ -379,6 +381,8 @@ class CurrentElectrode(BaseElectrode):
 
         self.metadata = metadata
         potential_electrodes.metadata = metadata
+        self._potential_electrodes = potential_electrodes
+        potential_electrodes._current_electrodes = self
 
         if isinstance(potential_electrodes.ab_cell_id, ReferencedData) and isinstance(
             self.ab_cell_id, ReferencedData
